@@ -20,6 +20,39 @@ fn main() {
             }
             out.flush().unwrap();
         }
+        "cc-dump" => {
+            // table of the `char` facts the crate takes from std, for the Lean driver
+            let mut out = BufWriter::new(io::stdout().lock());
+            let classes: [(&str, fn(char) -> bool); 3] = [
+                ("W", |c| c.is_whitespace()),
+                ("A", |c| c.is_alphabetic()),
+                ("N", |c| c.is_alphanumeric()),
+            ];
+            for (tag, f) in classes.iter() {
+                let mut start: Option<u32> = None;
+                for cp in 0..=0x110000u32 {
+                    let inside = char::from_u32(cp).map(|c| f(c)).unwrap_or(false);
+                    match (inside, start) {
+                        (true, None) => start = Some(cp),
+                        (false, Some(s)) => {
+                            writeln!(out, "{} {} {}", tag, s, cp - 1).unwrap();
+                            start = None;
+                        }
+                        _ => {}
+                    }
+                }
+            }
+            for cp in 0..0x110000u32 {
+                if let Some(c) = char::from_u32(cp) {
+                    let l: Vec<char> = c.to_lowercase().collect();
+                    if l != vec![c] {
+                        let v: Vec<String> = l.iter().map(|x| (*x as u32).to_string()).collect();
+                        writeln!(out, "L {} {}", cp, v.join(" ")).unwrap();
+                    }
+                }
+            }
+            out.flush().unwrap();
+        }
         _ => {
             eprintln!("unknown mode {}", mode);
             std::process::exit(2);
